@@ -408,22 +408,6 @@ fn main() {
     std::panic::set_hook(Box::new(|_| {}));
     let rt = tokio::runtime::Builder::new_multi_thread().worker_threads(2).enable_all().build().unwrap();
     let mut rng = Rng::new(seed);
-    if args.iter().any(|a| a == "--probe") {
-        for mem in [200usize, 400, 800, 1500, 3000, 6000, 12000, 50000] {
-            let sch = schema(1);
-            let rows: Vec<Row> = (0..40).map(|i| Row { key: vec![Some((i * 7) % 11)], id: i }).collect();
-            let rbs: Vec<RecordBatch> = rows.chunks(4).map(|c| batch(&sch, 1, c)).collect();
-            eprintln!("batch mem {}", rbs[0].get_array_memory_size());
-            let input = TestMemoryExec::try_new_exec(&[rbs], Arc::clone(&sch), None).unwrap();
-            let plan: Arc<dyn ExecutionPlan> = Arc::new(SortExec::new(ordering(&sch, &[(false, false)]), input));
-            match run_plan(&rt, plan, ctx(3, Some(mem), 2, 0), 1) {
-                Obs::Out(o, sp) => eprintln!("mem {mem}: out {} rows spills {sp}", o.len()),
-                Obs::Err(e) => eprintln!("mem {mem}: err {}", &e[..e.len().min(200)]),
-                Obs::Panic(e) => eprintln!("mem {mem}: panic {e}"),
-            }
-        }
-        return;
-    }
     // every k = 1..9 at least twice, then random
     for k in 1..=9usize {
         merge_case(&mut rng, &rt, Some(k));
